@@ -360,7 +360,8 @@ class Proc(Item):
     or interface body."""
 
     def __init__(self, kind, name, args=(), result=None, rettype=None, prefixes=(), decls=(), body=(), internal=(), bindc=None,
-                 items=()):
+                 items=(), result_attrs=()):
+        self.result_attrs = list(result_attrs)  # attributes of the result variable (each in the declaration or as a statement of its own)
         self.kind, self.name, self.args = kind, name, list(args)  # args: list of Var (one name each) or str (undeclared -> implicit)
         self.result, self.rettype = result, rettype  # rettype: tspec label in the prefix, or None (declared in body / implicit)
         self.prefixes, self.decls, self.body, self.internal = list(prefixes), list(decls), list(body), list(internal)
@@ -425,7 +426,7 @@ class Proc(Item):
     def resvar(self):
         """explicit declaration of the result variable in the body (when no type in the prefix)."""
         if self._resvar is None and self.kind == "function" and not self.rettype:
-            self._resvar = Var(self.result or self.name, "real", role="result")
+            self._resvar = Var(self.result or self.name, "real", list(self.result_attrs), role="result")
         return self._resvar
 
     def spec(self, st, site):
